@@ -173,6 +173,14 @@ pub fn solid(name: &str) -> (Vec<Point3>, Vec<[u32; 3]>) {
             ],
             vec![[0, 2, 1], [3, 4, 5], [0, 1, 4], [0, 4, 3], [1, 2, 5], [1, 5, 4], [2, 0, 3], [2, 3, 5]],
         ),
+        "degenerate" => (
+            // a legal mesh with a zero-area face (three collinear vertices) standing apart from two ordinary ones
+            vec![
+                Point3::new(0.0, 0.0, 0.0), Point3::new(2.0, 0.0, 0.0), Point3::new(0.0, 2.0, 0.0), Point3::new(2.0, 2.0, 0.5),
+                Point3::new(0.0, 0.0, 2.0), Point3::new(1.0, 0.5, 2.0), Point3::new(2.0, 1.0, 2.0),
+            ],
+            vec![[0, 1, 2], [1, 3, 2], [4, 5, 6]],
+        ),
         _ => {
             let m = Mesh::create_box(2.0, 3.0, 1.0, false);
             (m.vertices().to_vec(), m.faces().to_vec())
@@ -253,11 +261,28 @@ fn judge_mesh(v: &[Point3], f: &[[u32; 3]], is_solid: bool, queries: &[Point3], 
         } else {
             "query with a unique nearest element"
         });
-        let r = guarded(|| (m.surf_closest_to(q), m.point_closest_to(q)));
-        let (sp, pc) = match r {
+        // the plain closest point needs no normal: it must come back for every mesh, also when the nearest
+        // element is a zero-area face
+        let pc = match guarded(|| m.point_closest_to(q)) {
             Ok(x) => x,
             Err(msg) => {
                 l.check("mesh closest-point query returns", "panic", false, mk, || format!("q {:?}: {}", q, msg));
+                continue;
+            }
+        };
+        l.check("mesh: the plain closest point attains the global minimum", "", (d3(&pc, q) - best).abs() <= 1e-9, mk, || format!("q {:?}: got {} brute force {}", q, d3(&pc, q), best));
+        if !cps.iter().any(|(fi, _, d)| (d - best).abs() < 1e-9 && normals[*fi].is_some()) {
+            l.gray("nearest element is a zero-area face (no normal to report)");
+            continue;
+        }
+        let sp = match guarded(|| m.surf_closest_to(q)) {
+            Ok(x) => x,
+            Err(msg) => {
+                if cps.iter().any(|(fi, _, d)| (d - best).abs() < 1e-6 && normals[*fi].is_none()) {
+                    l.gray("a zero-area face ties for nearest");
+                } else {
+                    l.check("mesh closest-point query returns", "panic", false, mk, || format!("q {:?}: {}", q, msg));
+                }
                 continue;
             }
         };
@@ -522,6 +547,8 @@ pub fn cases(tier: Tier) -> Vec<Case> {
     for (fam, size) in [("sphere3", 0usize), ("torus", 0), ("grid", 6), ("grid", 13), ("grid", 24)] {
         out.push(Case { kind: "bigmesh".into(), verts: vec![], force_closed: false, family: fam.into(), size, fine });
     }
+    // an open mesh with a zero-area face (never flagged solid)
+    out.push(Case { kind: "solid".into(), verts: vec![], force_closed: false, family: "degenerate".into(), size: 0, fine });
     for fam in ["tetrahedron", "octahedron", "prism", "box"] {
         for sol in [false, true] {
             out.push(Case { kind: "solid".into(), verts: vec![], force_closed: sol, family: fam.into(), size: 0, fine });
